@@ -1,6 +1,6 @@
 SPECIFICATION Spec
-CONSTANTS Variant = "code" RecordHist = FALSE MaxCmds = 5
-CONSTANT Threads <- MCThreads1
+CONSTANTS Variant = "code" RecordHist = FALSE MaxCmds = 4
+CONSTANT Threads <- MCThreads
 CONSTANT Prog <- MCProg
 CONSTANT Lines <- MCLines
 INVARIANT TypeOK
